@@ -21,6 +21,7 @@ META = {
                     "OrigSendingTime of a retransmitted earlier copy may be either the copy's 122 or its 52"],
 }
 REQUIRED_ORACLES = ["chain", "side-effects"]
+REQUIRED_COUNTERS = ["cases_by_feature:hole-in-range", "cases_by_feature:bounded-end-below-last", "replies_with_a_concurrent_new_message"]
 NSHARDS = 16
 KINDS = ["app", "appx", "appg", "decl", "hb", "tr", "rr", "lo", "hole"]
 APPX_TYPES = ["AE", "AS", "AB", "AZ", "8", "BZ", "j"]     # application types that share a first character with session types
@@ -87,12 +88,12 @@ async def run_case(acc, clock, slots, prior, req, state, cid, concur=None):
                 elif k == "lo":
                     await ep.send_msg(FIXMessage("5", {58: "x"}))
                 elif k == "hole":
-                    ep.vf_writer.drain_error = ConnectionResetError("drain failed")
-                    try:
-                        await ep.send_msg(FIXMessage("D", {11: f"lost{i}"}))
-                    except ConnectionResetError:
-                        pass
-                    ep.vf_writer.drain_error = None
+                    # numbers that never reach the journal: the application jumps its own numbering (SequenceReset-Reset announcing it,
+                    # then the renumbering call the library provides).  (Until the write-ahead journaling of repo fix 2b27e94 a failed
+                    # drain() left such a hole too; it no longer does.)
+                    n_ = ep._session.next_num_out
+                    await ep.send_msg(FIXMessage("4", {34: n_, 36: n_ + 2}))
+                    j.set_seq_num(ep._session, next_num_out=n_ + 2)
             except Exception as e:
                 acc.add("journal_build_exceptions")
                 return None
